@@ -36,14 +36,19 @@ for pid in sorted(props):
         pass
     s15.append(f'### {pid} — {titles.get(pid, "")}')
     s15.append('')
-    fns = []
+    fns, autos = [], []
     for f in d.get('functions', []):
         n = f"`{f['pkg'].split('/')[-1]}.{f['name']}`"
+        if f.get('auto'):
+            autos.append(n)
+            continue
         if f.get('only'):
             n += f" (only obligations matching {f['only']})"
         fns.append(n)
     if fns:
         s15.append('*Functions under contract:* ' + ', '.join(fns) + '.')
+    if autos:
+        s15.append(f'*Functions checked against the empty contract (zero-annotation safety, {len(autos)}):* ' + ', '.join(autos) + '.')
     if d.get('lemmas'):
         s15.append('*Lemmas:* ' + ', '.join(f"`{l['name']}`" for l in d['lemmas']) + '.')
     if d.get('static'):
@@ -76,10 +81,11 @@ s17 = ['## 17. Seeded changes from independent sub-agents and which checks catch
        'google/pprof (nothing from /verif). I kept a change only after confirming in a scratch worktree that it applies,',
        'builds, passes the whole existing test suite, and that its demonstration passes on the unchanged tree and fails',
        'with the change (`tools/seedconfirm.py`). Every kept change is stored under `seeded/<property>-<name>/`',
-       '(`patch.diff`, the demonstration, `meta.json`). The table is the result of running every registered quick check',
-       'against a scratch worktree with the change applied (`tools/seedsweep.py`; own-property runs were also made by',
-       'applying the patch to /repo and undoing it straight afterwards). "own" = the check of the property the change was',
-       'written against; "other" = checks of other properties that also report a violation. A miss is stated as a miss.', '']
+       '(`patch.diff`, the demonstration, `meta.json`). "own" is the result of running the quick check of the property the',
+       'change was written against on a scratch worktree with the change applied, with the checker as committed last',
+       '(`tools/seedsweep.py --own`). "other" lists checks of other properties that reported a violation in the one full',
+       'cross-property sweep made after round 1 (not refreshed since; blank for later rounds). A miss is stated as a miss.',
+       'Three rounds: 80 changes (round 1, four per property), 40 (round 2) and up to 40 (round 3), two per property each.', '']
 by = {}
 for name, m in seeds:
     pid = name.split('-')[0]
